@@ -186,6 +186,18 @@ func (r *c29Run) checkAPI(fail func(key, what string) bool, s *NS, raw []byte, c
 	if got, want := ns.Hash(), refScriptHash(raw); !bytes.Equal(got[:], want[:]) {
 		fail("C29:hash:standalone-decode", fmt.Sprintf("script %s bytes %x: Hash()=%x, blake2b-224(00||original)=%x", s, raw, got[:], want[:]))
 	}
+	// the same script carried as a Babbage+ script reference of a UTxO entry
+	refOut := utxoOutNode(Babbage, 0, In{Lock: Lock{Kind: LKey, Key: 0}, Coin: 2_000_000, RefScript: &RefScript{Lang: 0, Bytes: raw}}).Encode()
+	if out, err := decodeOutputBytes(Babbage, refOut); err != nil {
+		rec.Class("scriptref_decode_rejected")
+	} else if sr := out.ScriptRef(); sr == nil {
+		fail("C29:hash:script-ref", fmt.Sprintf("output with a native script reference decodes without ScriptRef (script %x)", raw))
+	} else {
+		rec.Eval()
+		if got, want := sr.Hash(), refScriptHash(raw); !bytes.Equal(got[:], want[:]) {
+			fail("C29:hash:script-ref", fmt.Sprintf("script %s bytes %x as script_ref: Hash()=%x, blake2b-224(00||original)=%x", s, raw, got[:], want[:]))
+		}
+	}
 	// the API has no notion of an absent bound: its documentation prescribes 0
 	// for "no validity start" and 2^64-1 for "no ttl"
 	start, end := uint64(0), uint64(math.MaxUint64)
@@ -271,20 +283,24 @@ func (r *c29Run) checkTx(fail func(key, what string) bool, c *c29Tx) (decoded bo
 		rec.Class("tx_rule_rejects")
 		var nf allegra.NativeScriptFailedError
 		if errors.As(rerr, &nf) {
-			wantH := refScriptHash(c.Raws[firstFail])
-			if !bytes.Equal(nf.ScriptHash[:], wantH[:]) {
-				// a later script may be reported when an earlier one is satisfied only
-				// in the library's reading; only a hash of NO failing script is wrong
-				ok := false
-				for i, s := range c.Scripts {
-					h := refScriptHash(c.Raws[i])
-					if bytes.Equal(nf.ScriptHash[:], h[:]) && !refEval(s, c.Ctx, Quirks{}) {
-						ok = true
+			// the error must name one of the transaction's scripts by its original-bytes
+			// hash; when no modelled deviation touches any script of the case it must
+			// be the first one the reference rejects
+			member, pure := false, true
+			for i, s := range c.Scripts {
+				h := refScriptHash(c.Raws[i])
+				if bytes.Equal(nf.ScriptHash[:], h[:]) {
+					member = true
+				}
+				for mask := 1; mask < 16; mask++ {
+					if refEval(s, c.Ctx, quirksOf(mask)) != refEval(s, c.Ctx, Quirks{}) {
+						pure = false
 					}
 				}
-				if !ok {
-					fail("C29:tx:failed-script-hash", fmt.Sprintf("%s: NativeScriptFailedError names %x which is not a failing script of the transaction; case %s", c.Era, nf.ScriptHash[:], c.desc()))
-				}
+			}
+			wantH := refScriptHash(c.Raws[firstFail])
+			if !member || (pure && !bytes.Equal(nf.ScriptHash[:], wantH[:])) {
+				fail("C29:tx:failed-script-hash", fmt.Sprintf("%s: NativeScriptFailedError names %x, expected %x (first script the ledger semantics reject); case %s", c.Era, nf.ScriptHash[:], wantH[:], c.desc()))
 			}
 		} else {
 			fail("C29:tx:error-type", fmt.Sprintf("%s: rule rejected with %T (%v), expected NativeScriptFailedError", c.Era, rerr, rerr))
@@ -299,6 +315,7 @@ func (r *c29Run) checkTx(fail func(key, what string) bool, c *c29Tx) (decoded bo
 		if ferr == nil {
 			rec.Class("tx_full_list_accepts")
 			if !want {
+				rec.Class("tx_full_list_accepts_but_ledger_rejects_a_script")
 				r.report(fail, ruleSite(c.Era), "VerifyTransaction("+c.Era.String()+".UtxoValidationRules)", fmt.Sprintf("%s complete rule list accepts, ledger semantics reject script #%d; case %s", c.Era, firstFail, c.desc()),
 					func(q Quirks) bool {
 						for _, s := range c.Scripts {
